@@ -890,7 +890,7 @@ def run_check(tier, seed):
             nmix = 100 if tier == 'thorough' else 30
             mrng = SplitMix64(seed * 104729 + 17)
             ml_, mt_, mix_fail, mn_ = apicmp.run_programs(
-                V, aexe, wd, ((apigen.gen_mix_program(mrng, 'c02_m%d.nc' % k_, n_, focus=[None, 'burst', None, 'recvarn'][k_ % 4]), n_) for k_ in range(nmix) for n_ in [mrng.choice([1, 1, 2, 3])]),
+                V, aexe, wd, (((apigen.gen_cancel_program(mrng, 'c02_m%d.nc' % k_, n_) if k_ % 5 == 4 else apigen.gen_mix_program(mrng, 'c02_m%d.nc' % k_, n_, focus=[None, 'burst', None, 'recvarn'][k_ % 4])), n_) for k_ in range(nmix) for n_ in [mrng.choice([1, 1, 2, 3])]),
                 tier, 'C02:api-mix', 'several nonblocking requests completed by one wait (or one varn call with many segments) do not give the result of the same requests executed one by one', tagprefix='mix')
             V.cov['evaluations'] += ml_
             V.cov['distribution'] = dict(V.cov['distribution'], mix_programs=mn_, mix_result_lines=ml_, mix_tags=mt_)
